@@ -16,7 +16,7 @@ from __future__ import annotations
 from datetime import timedelta
 from typing import Any
 
-from detsim import env, gen, minimize, rng
+from detsim import env, gen, minimize, rng, runner
 from detsim.observe import exc_token, observe_chart, observe_track, scrub, us
 from detsim.runner import Discard
 from detsim.sched import HarnessError, Scheduler
@@ -197,6 +197,33 @@ def make_plan(seed: int, tier: str, index: int) -> dict[str, Any]:
             schedule["est_steps"] *= 4
     plan = {"property": PROP, "seed": seed, "text": text, "present": present, "clients": clients,
             "schedule": schedule}
+    f = rng.stream(seed, "fault")
+    if g.random() < 0.4:
+        # a second parsed chart with a different track set lives in the same process and is used
+        # by the same readers: nothing a reader does to one chart may show on the other
+        taken = set(present)
+        oh = [h for h in g.sample(gen.ALL_HEADERS, g.randint(0, 3)) if h not in taken]
+        odoc = gen.gen_doc(g, headers=oh, small=True)
+        odoc["unknown"] = []
+        plan["other_text"] = gen.render(odoc)
+        plan["other_present"] = oh
+        oticks = sorted({t for t, _ in odoc["tempos"]} | {gr["tick"] for tr in odoc["tracks"] for gr in tr[1]} | {0})
+        for ops in clients:
+            for i in range(len(ops)):
+                if p.random() < 0.3:
+                    # the same kind of question, asked of the other chart (often about a track
+                    # that only one of the two charts has)
+                    op = _gen_op(p, odoc, oh if p.random() < 0.5 else present, oticks or [0],
+                                 ["nps", "nps", "getitem", "getitem2", "ts_at", "prop", "render"])
+                    op["on"] = "other"
+                    ops[i] = op
+    if f.random() < 0.2:
+        # crash points inside read-only operations: an asynchronous exception cuts a read short;
+        # whatever the read had started to cache must not become the chart's value
+        all_ops = [op for ops in clients for op in ops if op["op"] not in ("assign", "compare")]
+        for op in f.sample(all_ops, min(len(all_ops), f.randint(1, 3))):
+            op["abort"] = {"at": f.choice([1, 2, 3, 5, 8, 13, 21, 34, 55]),
+                           "exc": f.choice(["SimAbort", "MemoryError", "KeyboardInterrupt"])}
     if s.random() < (0.35 if n_clients > 1 else 0.15):
         # "cold" runs: the harness does not observe the shared chart before or between operations
         # (observing reads every derived attribute and would fill all lazy caches before the
@@ -364,6 +391,30 @@ def do_op(chart: Any, twin: Any, op: dict[str, Any]) -> Any:
     raise HarnessError(f"unknown op {k}")
 
 
+def _pristine_results(text: str, other_text: str | None, clients: list[list[dict[str, Any]]]) -> dict[str, Any]:
+    """Every operation's result on a FRESH parse, computed in a process forked from the pristine
+    image (one fresh parse per operation, so operations cannot influence each other either)."""
+    from detsim import world
+
+    world.install_log_sink()
+    out: dict[str, Any] = {}
+    for ci, ops in enumerate(clients):
+        for k, op in enumerate(ops):
+            if op["op"] in ("hash", "compare"):
+                continue
+            t = other_text if op.get("on") == "other" else text
+            try:
+                fresh = world.parse_text(t)
+            except Exception as e:  # noqa: BLE001
+                out[f"{ci}.{k}"] = ["unparsable", type(e).__name__]
+                continue
+            try:
+                out[f"{ci}.{k}"] = ["ok", do_op(fresh, fresh, op)]
+            except BaseException as e:  # noqa: BLE001
+                out[f"{ci}.{k}"] = ["exc"] + exc_token(e)
+    return out
+
+
 def _absent_flag(op: dict[str, Any], present: list[str]) -> bool:
     if op["op"] == "getitem":
         return not any(gen.HEADERS[h][0] == op["inst"] for h in present)
@@ -386,13 +437,23 @@ def execute(plan: dict[str, Any]) -> dict[str, Any]:
         if state["halt"]:
             return
         state["halt"] = True
-        opk = op["op"] if op else ("final" if extra == "cold-final" else "initial")
+        opk = op["op"] if op else ("final" if extra in ("cold-final", "other-chart-final") else "initial")
         absent = "absent" if (op and _absent_flag(op, present)) else "present"
         violations.append({"sig": f"C19/{inv}/{opk}/{absent}/{extra}", "detail": detail})
 
+    other_text = plan.get("other_text")
+    try:
+        pristine = runner.in_fork(_pristine_results, text, other_text, plan["clients"], timeout=150)
+    except runner.ChildFailure as e:
+        return {"violations": [], "digest": "", "evals": 1,
+                "harness_error": f"reference computation failed: {e}"}
     try:
         chart = world.parse_text(text)
         twin = world.parse_text(text)
+        other = other_twin = None
+        if other_text is not None:
+            other = world.parse_text(other_text)
+            other_twin = world.parse_text(other_text)
     except Exception as e:  # noqa: BLE001
         raise Discard("chart-rejected:" + type(e).__name__) from e
     cold = bool(plan.get("cold"))
@@ -415,26 +476,47 @@ def execute(plan: dict[str, Any]) -> dict[str, Any]:
             for k, op in enumerate(ops):
                 if state["halt"]:
                     return
-                sched.begin_op(client, k)
+                on_other = op.get("on") == "other" and other is not None
+                tgt, tgt_twin = (other, other_twin) if on_other else (chart, twin)
+                tgt_text = other_text if on_other else text
+                sched.begin_op(client, k, op.get("abort"))
                 try:
-                    res: Any = ["ok", do_op(chart, twin, op)]
+                    res: Any = ["ok", do_op(tgt, tgt_twin, op)]
                 except HarnessError:
                     raise
                 except BaseException as e:  # noqa: BLE001
                     res = ["exc"] + exc_token(e)
+                aborted = client.abort_fired_at is not None
                 sched.end_op(client)
                 n_ops += 1
                 with sched.atomic(client):
-                    if res[0] == "exc":
+                    if aborted:
+                        # relaxed oracle for the interrupted operation itself (it may fail in any
+                        # way); the chart is judged as after any other operation
+                        probes["abort_in_read_only_op"] = probes.get("abort_in_read_only_op", 0) + 1
+                        sched.record("op", ci, k, op["op"], "aborted", client.abort_fired_at)
+                        res = None
+                    if res is not None and res[0] == "exc":
                         n_failing += 1
-                    sched.record("op", ci, k, op["op"], rng.digest(res) if op["op"] != "hash" else res[0])
+                    if res is not None:
+                        sched.record("op", ci, k, op["op"], rng.digest(res) if op["op"] != "hash" else res[0])
+                    # (5) the same operation on a fresh parse in a PRISTINE process (nothing that
+                    # happened in this process - to this chart or to any other - may show)
+                    pr = pristine.get(f"{ci}.{k}")
+                    if res is not None and pr is not None and pr[0] != "unparsable" and pr != res:
+                        et = res[1].rsplit(".", 1)[-1] if res[0] == "exc" else "value"
+                        vio("result-differs-from-pristine-process", op, et,
+                            f"client {ci} op {k}: {op} -> {str(res)[:300]} but the same operation on a "
+                            f"fresh parse in a fresh process gives {str(pr)[:300]}")
                     # (4)
-                    if op["op"] == "assign" and res == ["ok", "ACCEPTED"]:
+                    if res is not None and op["op"] == "assign" and res == ["ok", "ACCEPTED"]:
                         vio("assignment-accepted", op, f"{op['target'][0]}.{_attr_class(op)}.{op['mode']}",
                             f"client {ci} op {k}: {op} was accepted")
                     # (3) sequential model: same op on a fresh parse made now
-                    if op["op"] != "compare" and not state["halt"]:
-                        fresh = world.parse_text(text)
+                    if res is None:
+                        pass
+                    elif op["op"] != "compare" and not state["halt"]:
+                        fresh = world.parse_text(tgt_text)
                         try:
                             exp: Any = ["ok", do_op(fresh, fresh, op)]
                         except BaseException as e:  # noqa: BLE001
@@ -496,7 +578,17 @@ def execute(plan: dict[str, Any]) -> dict[str, Any]:
                 eq = False
             if not eq:
                 vio("twin-unequal", None, "cold-final", "after all read-only operations chart != twin")
+    if other is not None and harness_error is None and not state["halt"]:
+        try:
+            same = (rng.digest(observe_chart(other)) == rng.digest(observe_chart(other_twin))
+                    and bool(other == other_twin) and bool(other_twin == other))
+        except BaseException:  # noqa: BLE001
+            same = False
+        if not same:
+            vio("observation-changed", None, "other-chart-final",
+                "after all read-only operations the second chart differs from its untouched twin")
     probes["cold_runs"] = 1 if cold else 0
+    probes["runs_with_second_chart"] = 1 if other is not None else 0
     world.drain_log()
     all_ops = [op for c in plan["clients"] for op in c]
     has_special = any(_absent_flag(op, present) for op in all_ops) or n_failing > 0
